@@ -79,6 +79,8 @@ inductive CStatus where
 /-- an application task inside `close(force_after)` -/
 structure Closer where
   id : Nat
+  /-- the instant `close()` was called -/
+  start : Nat
   deadline : Nat
   st : CStatus
   deriving Repr, DecidableEq
@@ -103,6 +105,8 @@ structure S where
   closers : List Closer := []
   /-- `_closed_event.is_set()` -/
   closedEvent : Bool := false
+  /-- ghost: the instant `_closed_event` was set -/
+  closedAt : Option Nat := none
   /-- the instants at which `abort()` was called on the asyncio transport -/
   aborts : List Nat := []
   deriving Repr, DecidableEq
@@ -158,7 +162,8 @@ def S.teardown (s : S) : S :=
 `process_messages` runs its `finally: self._closed_event.set()` and every `close()` returns -/
 def S.settle (s : S) : S :=
   if s.lost && !s.closedEvent && s.handlers.all Handler.isDone then
-    { s with closedEvent := true, closers := s.closers.map (returnCloser s.now) }
+    { s with closedEvent := true, closedAt := some s.now,
+             closers := s.closers.map (returnCloser s.now) }
   else s
 
 /-- the asyncio transport delivers `connection_lost` - exactly once -/
@@ -277,12 +282,12 @@ def step (s : S) : Event → S
     if usedCloser s c then s
     else if s.closedEvent then
       -- `_closed_event.wait()` returns without suspending
-      { s with closers := s.closers ++ [⟨c, s.now + fa, .returned s.now⟩] }
+      { s with closers := s.closers ++ [⟨c, s.now, s.now + fa, .returned s.now⟩] }
     else if fa == 0 then
       -- timeout_after(0): the timer is due at once, before a graceful close can complete
       -- (close() and abort() in the same instant act like the abort alone)
-      S.doAbort { s with closers := s.closers ++ [⟨c, s.now, .abortedWaiting⟩] }
-    else S.transportClose { s with closers := s.closers ++ [⟨c, s.now + fa, .waiting⟩] }
+      S.doAbort { s with closers := s.closers ++ [⟨c, s.now, s.now, .abortedWaiting⟩] }
+    else S.transportClose { s with closers := s.closers ++ [⟨c, s.now, s.now + fa, .waiting⟩] }
   | .abort => s.doAbort
   | .advance dt => s.advance dt
 
